@@ -73,6 +73,8 @@ type FuncContract struct {
 	MayPanic  bool   // extern: may panic (arbitrary user code)
 	Returns   *Expr    // pure closure: the expression it returns (checked as ensures result == e)
 	Guards    [][2]*Expr
+	GuardFields []string
+	GuardFieldLocks []*Expr
 	GuardSrc  []string
 	LoopWrites []*Expr  // pre-existing maps/arrays that loops of this function may write (excluded from row preservation)
 	Entry     []string // entry assumptions justified by meta-arguments (e.g. nolocks)
@@ -92,8 +94,10 @@ type Contracts struct {
 	Globals []*Clause // global assumptions (axioms), listed in trusted base
 	Files   []string
 	Decls   map[string]string // pkgpath.Type.field -> declaration (guarded_by L / immutable / owner)
+	DeclsRaw map[string]string
 	Frames  map[string][]string
 	Templates map[string]*Template
+	LockInvs  map[string]*Clause
 }
 
 type Template struct {
@@ -102,7 +106,7 @@ type Template struct {
 }
 
 func NewContracts() *Contracts {
-	return &Contracts{Funcs: map[string]*FuncContract{}, Preds: map[string]*PredDef{}, Decls: map[string]string{}, Frames: map[string][]string{}, Templates: map[string]*Template{}}
+	return &Contracts{Funcs: map[string]*FuncContract{}, Preds: map[string]*PredDef{}, Decls: map[string]string{}, Frames: map[string][]string{}, Templates: map[string]*Template{}, LockInvs: map[string]*Clause{}}
 }
 
 func parseTags(s string) ([]string, string) {
@@ -295,6 +299,22 @@ func (cs *Contracts) LoadFile(path, pkgPath string) error {
 			cs.Preds[pd.Name] = pd
 			cur = nil
 			return nil
+		case "lockinv":
+			// lockinv pkg.Type.lockfield := pred-expression over `self` (the owner object)
+			i := strings.Index(rest, ":=")
+			if i < 0 {
+				return fmt.Errorf("%s:%d: lockinv needs :=", path, ln)
+			}
+			k := strings.TrimSpace(rest[:i])
+			if !strings.Contains(k, "/") && pkgPath != "" {
+				k = pkgPath + "." + k
+			}
+			e, err := ParseExpr(strings.TrimSpace(rest[i+2:]))
+			if err != nil {
+				return fmt.Errorf("%s:%d: %v", path, ln, err)
+			}
+			cs.LockInvs[k] = &Clause{Kind: "lockinv", E: e, Src: rest, File: path, Line: ln}
+			return nil
 		case "frameset":
 			i := strings.Index(rest, ":=")
 			if i < 0 {
@@ -363,6 +383,19 @@ func (cs *Contracts) LoadFile(path, pkgPath string) error {
 			}
 			cur.Guards = append(cur.Guards, [2]*Expr{e1, e2})
 			cur.GuardSrc = append(cur.GuardSrc, rest)
+		case "guardfield":
+			// guardfield pkg.Type.field by <lockexpr>: in this function every access to that field (of any
+			// object not allocated here) needs the lock
+			i := strings.Index(rest, " by ")
+			if i < 0 {
+				return fmt.Errorf("%s:%d: guardfield T.f by L", path, ln)
+			}
+			e2, err := ParseExpr(strings.TrimSpace(rest[i+4:]))
+			if err != nil {
+				return fmt.Errorf("%s:%d: %v", path, ln, err)
+			}
+			cur.GuardFields = append(cur.GuardFields, strings.TrimSpace(rest[:i]))
+			cur.GuardFieldLocks = append(cur.GuardFieldLocks, e2)
 		case "loopwrites":
 			for _, it := range splitTop(rest) {
 				e, err := ParseExpr(strings.TrimSpace(it))
